@@ -292,6 +292,13 @@ def pair_spec(draw):
 
         spec = draw(c17.run_spec())
         spec["family"] = "fixed_income"
+        if "cost_long" in spec["frames"] and draw(st.integers(0, 3)) == 0 and len(spec["dates"]) >= 4:
+            # a holding-cost table that starts later than the prices (its rows carry their own dates)
+            k0 = draw(st.integers(1, 2))
+            fr = spec["frames"]["cost_long"]
+            fr["dates"] = spec["dates"][k0:]
+            fr["cols"] = {t: v[k0:] for t, v in fr["cols"].items()}
+            spec["family"] = "fixed_income_late_cost_table"
     elif k < 12:
         # dated unit-risk tables read by UpdateRisk / HedgeRisks
         from . import c20
